@@ -129,7 +129,24 @@ def rule_b(F):
         res.append(bad("C12.B", "C12/B/remove_with_hint/backshift", f.loc(vac[0]["expr"]["ln"]),
                        "the back-shift loop copies the hash of a following entry into the hole but the slot it was moved from is never marked "
                        "EMPTY: the entry stays visible twice (its stale copy holds a key that was dropped and a value that was moved out)"))
+    res.extend(backshift_instances(f, "C12.B", "C12/B/remove_with_hint", power_of_two=False))
     return res
+
+
+def backshift_instances(f, rid, keybase, power_of_two):
+    from cao import backshift as bs
+    out = []
+    r = bs.analyse(f, power_of_two)
+    if r is None:
+        return out
+    seen = {}
+    for suffix, status, msg, ln in r:
+        n = seen.get(suffix, 0)
+        seen[suffix] = n + 1
+        key = "%s/%s%s" % (keybase, suffix, "" if n == 0 else "#%d" % n)
+        mk = {"ok": ok, "bad": bad, "undecided": undecided}[status]
+        out.append(mk(rid, key, f.loc(ln), msg))
+    return out
 
 
 def hu_end_line(e):
@@ -187,6 +204,6 @@ RULES = [
     Rule("C12.I", rule_i, 2, "no stale slot index across reallocation"),
     Rule("C12.G", rule_g, 2, "load-factor guard on every insertion path"),
     Rule("C12.Z", rule_z, 1, "reserved hash value mapped away"),
-    Rule("C12.B", rule_b, 1, "removal back-shifts and empties the final hole"),
+    Rule("C12.B", rule_b, 4, "removal back-shifts and empties the final hole"),
     Rule("C12.E", rule_e, 2, "failed allocation leaves the map intact"),
 ]
